@@ -1,0 +1,10 @@
+//go:build verif
+
+package loki
+
+import "github.com/ozontech/file.d/pipeline"
+
+// VerifOut calls the batch output function the batcher workers call (verification only).
+func (p *Plugin) VerifOut(workerData *pipeline.WorkerData, batch *pipeline.Batch) error {
+	return p.out(workerData, batch)
+}
